@@ -31,9 +31,9 @@ MODEL_CHUNK = 8    # Arena.cfg
 MODEL_BASE_ALIGN = 8   # Arena.cfg: placement of larger alignments depends on the base address
 
 
-ALL_VARIANTS = [("chunk", "raw"), ("chunk", "typed"), ("chunk", "vec"), ("chunk", "str"), ("chunk", "rawz"),
-                ("page", "raw"), ("page", "typed"), ("page", "vec"), ("page", "str"),
-                ("byte", "raw"), ("byte", "typed"), ("byte", "vec"), ("byte", "str")]
+ALL_VARIANTS = [("chunk", "raw"), ("chunk", "typed"), ("chunk", "vec"), ("chunk", "str"), ("chunk", "rawz"), ("chunk", "strrep"),
+                ("page", "raw"), ("page", "typed"), ("page", "vec"), ("page", "str"), ("page", "strrep"),
+                ("byte", "raw"), ("byte", "typed"), ("byte", "vec"), ("byte", "str"), ("byte", "strrep")]
 
 
 def tier_params(tier):
